@@ -154,6 +154,8 @@ def check(ctx):
     from . import generic
     generic.lossy_calls(ctx, generic.module_functions(repo, "dataiter.vector"),
                         "replace_na replaces exactly the missing positions")
+    generic.na_blind_paths(ctx, [f for f in generic.module_functions(repo, "dataiter.vector") if f.cls is not None and f.cls.name == "Vector"],
+                           "drop_na and replace_na remove or replace exactly the missing positions")
     generic.memo_projection(ctx, ("dataiter.vector", "dataiter.util", "dataiter.dtypes"),
                             "na_value / na_dtype are the missing value of the vector's own dtype")
     for r, t in (("SIB-9", "is_na / na_dtype / na_value agree per dtype kind with each other and with the statement"),
@@ -282,11 +284,14 @@ def check(ctx):
                f"float, so its type is reported and a sequence of dates with such a NaN is no longer inferred as dates",
                clause="maps None and NaN to the missing value of the inferred type")
     facts = facts_at(std, comp[0])
-    guards = [(k, t) for k, t in facts if " in seq" in t or "any(" in t or "None in" in t]
+    seqn = norm(comp[0].generators[0].iter)
+    harmless = {seqn, f"len({seqn})", f"len({seqn}) > 0", f"not {seqn}", f"len({seqn}) == 0", f"{seqn} is not None", f"{seqn} is None"}
+    guards = [(k, t) for k, t in facts if not t.startswith("iter:") and t not in harmless]
     ctx.ob("SIB-pred", std, "substitution is unconditional", comp[0], not guards,
            "every element is examined" if not guards else
-           f"the substitution only runs under {guards}: membership tests find NaN by identity only, so float('nan') / computed NaNs "
-           f"are not replaced", clause="maps None and NaN to the missing value of the inferred type")
+           f"the substitution only runs under {guards}: a pre-test of `something is missing` has to find every NaN the element-wise test "
+           f"finds (membership tests find NaN by identity only: float('nan'), math.nan and computed NaNs are not np.nan), otherwise "
+           f"those are not replaced", clause="maps None and NaN to the missing value of the inferred type")
     # the substituted list is what is handed to numpy
     tgt = std.module.parent.get(comp[0])
     ok = isinstance(tgt, ast.Assign) and norm(tgt.targets[0]) == "seq" and all(
